@@ -5,13 +5,43 @@
 (* is instantiated on the real converters by harness/checks/c21.py.  The invariants are theorems of the REQUIRED  *)
 (* design: they are what makes the correspondence of ConvertObs.tla well defined.                                *)
 EXTENDS ConvertDef
-CONSTANTS L1S, L2S, TRS, TAPS, SHIFTS, PFES, GENS, SGENS, LD2S, SHS, SWLS, SWBS, B3S, ROUTES
+CONSTANT TIER          \* "quick" | "thorough": which sub-space of the configuration space is enumerated
 VARIABLES cfg, out
 
-Configs == {c \in [l1 : L1S, l2 : L2S, tr : TRS, tap : TAPS, shift : SHIFTS, pfe : PFES, gen : GENS, sgen : SGENS,
-                   ld2 : LD2S, sh : SHS, swl : SWLS, swb : SWBS, b3 : B3S, route : ROUTES] : WellFormed(c)}
+\* transformer variants <<tr, tap, shift, pfe, b3>>
+TrIn(tap, shift, pfe) == <<"in", tap, shift, pfe, TRUE>>
+TrVariants ==
+  IF TIER = "quick"
+  THEN {<<"absent", "neutral", 0, "zero", TRUE>>, <<"oos", "neutral", 0, "zero", TRUE>>,
+        TrIn("neutral", 0, "pos"),          \* nominal ratio, no shift: an "impedance" for from_ppc
+        TrIn("plus", 150, "pos"), TrIn("plus", 0, "zero")}
+  ELSE {<<"absent", "neutral", 0, "zero", TRUE>>, <<"oos", "neutral", 0, "zero", TRUE>>,
+        TrIn("neutral", 0, "zero"), TrIn("neutral", 0, "pos"), TrIn("plus", 0, "pos"), TrIn("neutral", 150, "pos"),
+        TrIn("plus", 150, "zero"),
+        <<"in", "plus", 0, "pos", FALSE>>}  \* in-service transformer at an out-of-service LV bus
+\* line variants <<l1, l2, swl>>: line 1-2, second line 0-2 and its line switch
+LineVariants ==
+  IF TIER = "quick" THEN {<<"in", "absent", "absent">>, <<"in", "in", "absent">>, <<"in", "in", "open">>, <<"in", "oos", "absent">>,
+                          <<"oos", "absent", "absent">>}      \* only l0 left: buses 2, 3 dead, a one-branch case file
+  ELSE {<<l1, x[1], x[2]>> : l1 \in {"in", "oos"},
+                                x \in {<<"absent", "absent">>, <<"in", "absent">>, <<"in", "closed">>, <<"in", "open">>,
+                                       <<"oos", "absent">>, <<"oos", "open">>}}
+Three == {"absent", "in", "oos"}
+GENS  == Three
+SGENS == IF TIER = "quick" THEN {"absent", "small", "large"} ELSE {"absent", "oos", "small", "equal", "large"}
+LD2S  == IF TIER = "quick" THEN {"in"} ELSE Three
+SHS   == IF TIER = "quick" THEN {"absent", "in"} ELSE Three
+SWBS  == IF TIER = "quick" THEN {"closed", "open"} ELSE {"absent", "closed", "open"}
+ROUTES == {"ppc", "mpc"}
+
+Configs ==
+  { [l1 |-> lv[1], l2 |-> lv[2], swl |-> lv[3], tr |-> tv[1], tap |-> tv[2], shift |-> tv[3], pfe |-> tv[4], b3 |-> tv[5],
+     gen |-> g, sgen |-> sg, ld2 |-> ld, sh |-> sh, swb |-> sb, route |-> r] :
+      lv \in LineVariants, tv \in TrVariants, g \in GENS, sg \in SGENS, ld \in LD2S, sh \in SHS, sb \in SWBS,
+      r \in ROUTES }
 
 Init == cfg \in Configs /\ out = Derive(cfg)
+AllWellFormed == WellFormed(cfg)
 Next == UNCHANGED <<cfg, out>>
 
 \* the reference bus is always converted
